@@ -37,6 +37,18 @@ CHECKS = {
         "Trusted: pkgutil.iter_modules, inspect.getmembers, os.walk, functools.partial. Order of enumeration is C09's concern.",
         "DESIGN.md 3/C18",
     ),
+    "C19": (
+        "abstract interpretation of the substitution loop (path table of emitted segments and offset updates) compared case by case with the tiling rule",
+        "For Node.flatten and query.squash_replace: in every case of (overlap-skip, changed, string-typed) exactly one path runs and emits exactly value[OFFSET:child.start] + the child's flattened value (quoted for string types) and sets OFFSET to child.end, or emits nothing; the tail is emitted once; the result is the concatenation. This is the tiling invariant; byte equality with a reference over all trees is a consequence argued on paper.",
+        "Trusted: bytes slicing, list.append, b''.join.",
+        "DESIGN.md 3/C19",
+    ),
+    "C20": (
+        "agreement tables (__slots__ vs node_to_dict keys vs as_node reads vs __eq__ fields, inverse transforms), stdlib signature lookup for every json.* keyword, CLI dataflow by reaching definitions and call-shape matching",
+        "Decides the field-by-field agreement between the record, its encoder, its decoder and structural equality; that json.dumps/json.loads are called with keywords they accept; that json_to_tree rebuilds the tree top-down with parent links; that the CLI scans the raw bytes and prints exactly tree_to_json(tree) / one string_summary line per node in pre-order / squash_replace(data, tree.children).",
+        "Trusted: json, bytes.hex/fromhex, argparse. inspect.signature is applied to stdlib callables only.",
+        "DESIGN.md 3/C20",
+    ),
     "C07": (
         "reaching-condition dominance (truth table over the depth guard) + linear form of recursive depth arguments + def-use census of the depth parameter",
         "Static analysis of scan/scan_node: every decoder call, recursive call and tree mutation is dominated by DEPTH >= 1; every recursive call passes DEPTH - c, c >= 1; the depth parameter flows nowhere else. These three facts are the whole truncation mechanism; the prefix relation between the trees for k and k+1 is a paper consequence of them plus C08, not mechanically proved.",
